@@ -36,11 +36,13 @@ func init() { Registry["C16"] = C16 }
 // ---------------------------------------------------------------- scenarios (replay files)
 
 type c16Scenario struct {
-	Kind    string          `json:"kind"` // hash | commit | parse | secrets
-	Hash    *c16HashCase    `json:"hash,omitempty"`
-	Commit  *c16CommitCase  `json:"commit,omitempty"`
-	Parse   *c16ParseCase   `json:"parse,omitempty"`
-	Secrets *c16SecretsCase `json:"secrets,omitempty"`
+	Kind      string            `json:"kind"` // hash | commit | parse | secrets | hashhist | buildhist
+	Hash      *c16HashCase      `json:"hash,omitempty"`
+	Commit    *c16CommitCase    `json:"commit,omitempty"`
+	Parse     *c16ParseCase     `json:"parse,omitempty"`
+	Secrets   *c16SecretsCase   `json:"secrets,omitempty"`
+	HashHist  *c16HashHistCase  `json:"hash_history,omitempty"`
+	BuildHist *c16BuildHistCase `json:"builder_history,omitempty"`
 }
 
 // c16Finding is what the evaluation of one case returns when the real code contradicts the property.
@@ -102,6 +104,9 @@ func c16Set(v []int) string {
 
 type c16HF struct {
 	alpha            []int
+	blocks           []int  // BlockVals: the 9-byte blocks '$' o LE64(k) are symbols too
+	extra            string // further CONSTANTS lines
+	spec             string // SPECIFICATION (default Spec)
 	maxCount, maxLen int
 	kind             string
 	withNil          bool
@@ -126,8 +131,11 @@ func (h c16HF) cfg() string {
 		q[i] = strconv.Quote(x)
 	}
 	vs := "{" + strings.Join(q, ", ") + "}"
-	s := fmt.Sprintf("SPECIFICATION Spec\nCONSTANTS\n  Alphabet = %s\n  MaxCount = %d\n  MaxLen = %d\n  Kind = %q\n  WithNil = %s\n  VariantSet = %s\n  Emit = %s\n",
-		c16Set(h.alpha), h.maxCount, h.maxLen, h.kind, b(h.withNil), vs, b(h.emit))
+	if h.spec == "" {
+		h.spec = "Spec"
+	}
+	s := fmt.Sprintf("SPECIFICATION %s\nCONSTANTS\n  Alphabet = %s\n  BlockVals = %s\n  MaxCount = %d\n  MaxLen = %d\n  Kind = %q\n  WithNil = %s\n  VariantSet = %s\n  Emit = %s\n%s",
+		h.spec, c16Set(h.alpha), c16Set(h.blocks), h.maxCount, h.maxLen, h.kind, b(h.withNil), vs, b(h.emit), h.extra)
 	if h.invs != "" {
 		s += "INVARIANTS " + h.invs + "\n"
 	}
@@ -177,6 +185,7 @@ type c16CB struct {
 	overLens          []int
 	fill              int
 	invs              string
+	history           bool // Mode "history": HistProfiles comes from the wrapper module
 }
 
 func (c c16CB) cfg() string {
@@ -189,8 +198,12 @@ func (c c16CB) cfg() string {
 	if len(c.overLens) == 0 {
 		c.overLens = c.lens
 	}
-	return fmt.Sprintf("SPECIFICATION Spec\nCONSTANTS\n  PartsCap = %d\n  MaxPartSize = %d\n  Dangling = %q\n  Mode = %q\n  MaxSeqLen = %d\n  NatElems = %s\n  LenChoices = %s\n  OverLens = %s\n  FillV = %d\nINVARIANTS %s\nCHECK_DEADLOCK FALSE\n",
-		c.partsCap, c.maxPart, c.dangling, c.mode, c.maxSeqLen, c16Set(c.natElems), c16Set(c.lens), c16Set(c.overLens), c.fill, c.invs)
+	prof := "  HistProfiles = {}\n"
+	if c.history {
+		prof = "  HistProfiles <- HistProfilesVal\n"
+	}
+	return fmt.Sprintf("SPECIFICATION Spec\nCONSTANTS\n  PartsCap = %d\n  MaxPartSize = %d\n  Dangling = %q\n  Mode = %q\n  MaxSeqLen = %d\n  NatElems = %s\n  LenChoices = %s\n  OverLens = %s\n  FillV = %d\n  MemoDesign = \"none\"\n%sINVARIANTS %s\nCHECK_DEADLOCK FALSE\n",
+		c.partsCap, c.maxPart, c.dangling, c.mode, c.maxSeqLen, c16Set(c.natElems), c16Set(c.lens), c16Set(c.overLens), c.fill, prof, c.invs)
 }
 
 // c16Lines calls f with the string payload of every value <<"TAG", "...">> printed by TLC (TLC's pretty printer may
@@ -290,6 +303,10 @@ func c16Replay(ctx *core.Ctx) error {
 		f = c16ParseEval(sc.Parse, nil).Finding
 	case sc.Kind == "secrets" && sc.Secrets != nil:
 		f = c16SecretsEval(sc.Secrets, nil)
+	case sc.Kind == "hashhist" && sc.HashHist != nil:
+		f = c16HashHistEval(sc.HashHist)
+	case sc.Kind == "buildhist" && sc.BuildHist != nil:
+		f, _ = c16BuildHistEval(sc.BuildHist)
 	default:
 		return core.Inconcl("replay file has no C16 scenario")
 	}
@@ -307,6 +324,11 @@ const (
 
 var c16Ambiguous = []string{"nolen", "nocount+nolen", "bare", "skipempty"}
 var c16Injective = []string{"code", "nocount", "nodelim"}
+
+// injective on short strings over single bytes, ambiguous as soon as an input embeds a whole delimiter + field (HashFrame.tla)
+// (these four collide on the block domain with BlockVals {0, 1, 2, 3}; "total" needs a block that holds the sum of all lengths
+// and is convicted by the constructed pairs only)
+var c16EmbedAmbiguous = []string{"count/$/count", "count/$/zero", "count/$/index", "count/$/first"}
 
 func C16(ctx *core.Ctx) error {
 	if ctx.Replay != "" {
@@ -334,13 +356,16 @@ func C16(ctx *core.Ctx) error {
 	rl := c16NewRandomLong(ctx.Seed, ctx.Pick(150, 6000), ctx.Pick(60, 300)) // families (about 17 tuples each), tuples sampled for TLC
 
 	// ---- TLC jobs (started now, consumed below as they finish)
-	hfJob := func(name string, w int, h c16HF, wrapper string) *c16Job {
-		o := tlc.Options{Module: "HashFrame", Cfg: h.cfg(), Heap: heap, Timeout: timeout, Env: jvmEnv}
+	hfJobOn := func(base, name string, w int, h c16HF, wrapper string) *c16Job {
+		o := tlc.Options{Module: base, Cfg: h.cfg(), Heap: heap, Timeout: timeout, Env: jvmEnv}
 		if wrapper != "" {
 			o.Module = "MC_C16_" + name
-			o.Files = map[string]string{o.Module + ".tla": fmt.Sprintf("---- MODULE %s ----\nEXTENDS HashFrame\n%s\n====\n", o.Module, wrapper)}
+			o.Files = map[string]string{o.Module + ".tla": fmt.Sprintf("---- MODULE %s ----\nEXTENDS %s\n%s\n====\n", o.Module, base, wrapper)}
 		}
 		return &c16Job{name: name, workers: w, opt: o}
+	}
+	hfJob := func(name string, w int, h c16HF, wrapper string) *c16Job {
+		return hfJobOn("HashFrame", name, w, h, wrapper)
 	}
 	cbJob := func(name string, w int, c c16CB) *c16Job {
 		return &c16Job{name: name, workers: w, opt: tlc.Options{Module: "CommitBuilder", Cfg: c.cfg(), Heap: heap, Timeout: timeout, Env: jvmEnv}}
@@ -351,7 +376,13 @@ func C16(ctx *core.Ctx) error {
 	// views: distinct states = distinct (framing, frame) pairs. The first one also evaluates the collision witnesses of
 	// the ambiguous framings and the frames of the sampled long tuples.
 	viewLen := ctx.Pick(2, 3)
-	wrapper := "ASSUME \\A vv \\in Ambiguous : PrintT(<<\"WITNESS\", vv, ToJson(Witness(vv))>>)\n" + rl.tlaSample()
+	wrapper := "ASSUME \\A vv \\in Ambiguous : PrintT(<<\"WITNESS\", vv, ToJson(Witness(vv))>>)\n" + rl.tlaSample() +
+		// HashFrameAdv.tla: the pairs that embed what a (weakened) framing writes, judged under every variant; the probes
+		"ASSUME \\A p \\in EmbedPairs : CodeSeparates(p) /\\ PrintT(<<\"PAIR\", ToJson([a |-> p[1], b |-> p[2], by |-> CollidesUnder(p)])>>)\n" +
+		"ASSUME \\A v \\in EmbedAmbiguous \\cup LongAmbiguous : \\E p \\in EmbedPairs : v \\in CollidesUnder(p)\n" +
+		"ASSUME PrintT(<<\"MUSTHIT\", ToJson(EmbedAmbiguous \\cup LongAmbiguous)>>)\n" +
+		"ASSUME PrintT(<<\"PROBES\", ToJson(Probes)>>)\n" +
+		"ASSUME ProbesDiscriminate /\\ \\A v \\in ProbeVariants : PrintT(<<\"PROBE\", VName(v), ToJson(ProbeFrames[v])>>)\n"
 	type viewRun struct {
 		job      *c16Job
 		kind     string
@@ -360,7 +391,34 @@ func C16(ctx *core.Ctx) error {
 	}
 	var views []viewRun
 	nb := c16NTuples(c16NStrings(len(alphaQuick), viewLen), 3)
-	views = append(views, viewRun{hfJob("view_injective", 1, c16HF{alpha: alphaQuick, maxCount: 3, maxLen: viewLen, kind: "bytes", variants: c16Injective, invs: "TypeOK", view: true}, wrapper), "bytes", c16Injective, nb})
+	views = append(views, viewRun{hfJobOn("HashFrameAdv", "view_injective", 1, c16HF{alpha: alphaQuick, maxCount: 3, maxLen: viewLen, kind: "bytes", variants: c16Injective, invs: "TypeOK", view: true}, wrapper), "bytes", c16Injective, nb})
+	// the exhaustive domain over SYMBOLS: bytes and whole 9-byte blocks '$' o LE64(k) (a delimiter and a length / count field)
+	blockAlpha, blockVals := []int{1}, []int{0, 2, 3}
+	if ctx.Thorough() {
+		blockVals = []int{0, 1, 2, 3}
+	}
+	nBlocks := c16NTuples(c16NStrings(len(blockAlpha)+len(blockVals), 2), 3)
+	jBlocks := hfJob("blocks", ctx.Pick(2, 4), c16HF{alpha: blockAlpha, blocks: blockVals, maxCount: 3, maxLen: 2, kind: "bytes", emit: true, invs: "FrameRow"}, "")
+	if ctx.Thorough() {
+		// on the block domain TLC itself finds the collisions of the framings whose field does not fix the length
+		views = append(views, viewRun{hfJob("viewblocks_injective", 1, c16HF{alpha: blockAlpha, blocks: blockVals, maxCount: 3, maxLen: 2, kind: "bytes", variants: c16Injective, invs: "TypeOK", view: true}, ""), "blocks", c16Injective, nBlocks})
+		for _, v := range c16EmbedAmbiguous {
+			j := hfJob("viewblocks_"+strings.NewReplacer("/", "_", "$", "D").Replace(v), 1, c16HF{alpha: blockAlpha, blocks: blockVals, maxCount: 3, maxLen: 2, kind: "bytes", variants: []string{v}, invs: "TypeOK", view: true}, "")
+			views = append(views, viewRun{j, "blocks", []string{v}, nBlocks})
+		}
+	}
+	// histories of calls of the hash functions in one process, the caller re-using its objects (spec/HashHistory.tla)
+	hv := "bv |-> {<<1>>, <<2>>}, iv |-> {1, 2}, tv |-> {<<1>>, <<2>>}"
+	hprof := fmt.Sprintf("{ [%s, arity |-> {1}, max |-> 2, flags |-> TRUE], [%s, arity |-> {1}, max |-> 3, flags |-> FALSE], [%s, arity |-> {1, 2}, max |-> 2, flags |-> FALSE] }", hv, hv, hv)
+	if ctx.Thorough() {
+		hv3 := "bv |-> {<<1>>, <<2>>, <<1, 2>>}, iv |-> {1, 2, 258}, tv |-> {<<1>>, <<2>>, <<1, 2>>}"
+		hprof = fmt.Sprintf("{ [%s, arity |-> {1, 2}, max |-> 2, flags |-> TRUE], [%s, arity |-> {1}, max |-> 4, flags |-> FALSE], [%s, arity |-> {1, 2}, max |-> 3, flags |-> FALSE], [%s, arity |-> {1}, max |-> 3, flags |-> FALSE], [%s, arity |-> {1}, max |-> 2, flags |-> TRUE] }", hv, hv, hv, hv3, hv3)
+	}
+	hhWrapper := "HProfilesVal == " + hprof + "\n" +
+		"ASSUME \\A p \\in HProfilesVal : \\A c \\in CallsOf(p) : PrintT(<<\"CALL\", ToJson([fn |-> c.fn, tag |-> c.tag, ins |-> c.ins, f |-> Frame(InBytes(c)), tf |-> Frame(<<c.tag>>)])>>)\n" +
+		"ASSUME \\A d \\in StatefulDesigns : PrintT(<<\"HWITNESS\", d, ToJson(Witness2(d))>>)\n"
+	jHHist := hfJobOn("HashHistory", "hash_histories", ctx.Pick(1, 3), c16HF{alpha: []int{1}, maxCount: 1, maxLen: 1, kind: "bytes", spec: "HSpec",
+		extra: "  Design = \"pure\"\n  HProfiles <- HProfilesVal\n", invs: "HistFunctional HistInjective HistHeld EmitHist"}, hhWrapper)
 	if ctx.Thorough() {
 		for _, v := range c16Ambiguous {
 			j := hfJob("view_"+strings.ReplaceAll(v, "+", "_"), 1, c16HF{alpha: alphaQuick, maxCount: 3, maxLen: viewLen, kind: "bytes", variants: []string{v}, invs: "TypeOK", view: true}, "")
@@ -391,15 +449,25 @@ func C16(ctx *core.Ctx) error {
 		extra = append(extra, cbJob("seqs_small_cap2", 1, c16CB{partsCap: 2, maxPart: 1, dangling: "checked", mode: "seqs", maxSeqLen: 6, natElems: []int{0, 1, 2}, invs: "ParserSound ParserExact"}))
 	}
 	jLayoutsIgn := cbJob("layouts_pinned_parser", 1, c16CB{partsCap: 3, maxPart: 2, dangling: "ignored", mode: "layouts", invs: "RoundTrip"})
+	// histories on ONE builder object at the real caps (CommitBuilder.tla, Mode "history")
+	bprof := `{ [ops |-> {"add0", "add1", "secrets", "parse", "scribble", "parts"}, max |-> 5], [ops |-> {"add1", "secrets", "parse"}, max |-> 7], [ops |-> {"add1", "addBig", "secrets"}, max |-> 4] }`
+	if ctx.Thorough() {
+		bprof = `{ [ops |-> {"add0", "add1", "secrets", "parse", "scribble", "parts"}, max |-> 6], [ops |-> {"add0", "add2", "secrets", "parse", "scribble"}, max |-> 6], [ops |-> {"add1", "secrets", "parse"}, max |-> 9], [ops |-> {"add1", "addBig", "secrets", "scribble"}, max |-> 5] }`
+	}
+	jBHist := cbJob("builder_histories", ctx.Pick(1, 3), c16CB{partsCap: c16RealPartsCap, maxPart: c16RealMaxPart, dangling: "checked", mode: "history", history: true, invs: "HistSecretsArePacking HistParseGivesParts EmitHist"})
+	jBHist.opt.Module = "MC_C16_builder_histories"
+	jBHist.opt.Files = map[string]string{"MC_C16_builder_histories.tla": "---- MODULE MC_C16_builder_histories ----\nEXTENDS CommitBuilder\nHistProfilesVal == " + bprof + "\n" +
+		"ASSUME \\A d \\in {\"stale\", \"shared\"} : PrintT(<<\"HISTWITNESS\", d, ToJson(HistWitness(d))>>)\n" +
+		"ASSUME \\A h \\in WitnessHists : LET o == TLCEval(HObs(\"none\", h)) IN SecretsArePacking(h, o) /\\ ParseGivesParts(h, o)\n====\n"}
 
-	jobs := []*c16Job{jBytes, jCat, jInts, jCommit, jSeqsReal, jLayouts, jSeqs}
+	jobs := []*c16Job{jBytes, jInts, views[0].job, jBlocks, jCat, jCommit, jHHist, jSeqsReal, jBHist, jLayouts, jSeqs}
 	jobs = append(jobs, cats[1:]...)
 	jobs = append(jobs, extra...)
 	jobs = append(jobs, jSeqsIgn)
 	if ctx.Thorough() {
 		jobs = append(jobs, jLayoutsIgn)
 	}
-	for _, v := range views {
+	for _, v := range views[1:] {
 		jobs = append(jobs, v.job)
 	}
 	c16RunJobs(jobs, 8)
@@ -494,6 +562,9 @@ func C16(ctx *core.Ctx) error {
 		for _, a := range c16Ambiguous {
 			amb = amb || a == v.variants[0]
 		}
+		for _, a := range c16EmbedAmbiguous {
+			amb = amb || (v.kind == "blocks" && a == v.variants[0])
+		}
 		d := v.job.res.Distinct
 		name := v.kind + ":" + strings.Join(v.variants, ",")
 		viewTable[name] = map[string]any{"tuples_per_framing": v.total, "distinct_frames_incl_roots": d, "expected_ambiguous": amb}
@@ -515,7 +586,44 @@ func C16(ctx *core.Ctx) error {
 	if err := rl.conformance(views[0].job.res.Output, cov); err != nil {
 		return err
 	}
+	// the adversarial pairs of HashFrameAdv.tla and the identification of the framing each function follows
+	var mustHit []string
+	if _, err := c16Lines(views[0].job.res.Output, "MUSTHIT", func(p string) error { return json.Unmarshal([]byte(p), &mustHit) }); err != nil || len(mustHit) < 5 {
+		return core.Inconcl("cannot read the list of weakened framings the adversarial pairs must hit (%v)", err)
+	}
+	if err := hs.advPairs(views[0].job.res.Output, mustHit, add); err != nil {
+		return err
+	}
+	if err := hs.identify(views[0].job.res.Output); err != nil {
+		return err
+	}
+	views[0].job.res.Output = ""
 	lap("hash_views")
+	if err := wait(jBlocks, ""); err != nil {
+		return err
+	}
+	if jBlocks.res.Distinct != nBlocks+1 {
+		return core.Inconcl("HashFrame blocks run explored %d states, the domain has %d tuples", jBlocks.res.Distinct, nBlocks)
+	}
+	if err := hs.blocksTable(jBlocks.res.Output, nBlocks); err != nil {
+		return err
+	}
+	jBlocks.res.Output = ""
+	lap("hash_blocks")
+	if err := wait(jHHist, ""); err != nil {
+		return err
+	}
+	hw := 0
+	c16Tagged(jHHist.res.Output, "HWITNESS", func(string) error { hw++; return nil })
+	if hw != 4 {
+		return core.Inconcl("self-test: TLC found a distinguishing history for %d of the 4 designs that keep state between calls", hw)
+	}
+	if err := c16HashHistories(jHHist.res.Output, jHHist.res.Distinct, hs, cov, add); err != nil {
+		return err
+	}
+	jHHist.res.Output = ""
+	hs.finishDrift()
+	lap("hash_histories")
 
 	// ---- commitments: the edit catalogue
 	if err := wait(jCommit, ""); err != nil {
@@ -574,6 +682,19 @@ func C16(ctx *core.Ctx) error {
 	}
 	bs.finish()
 	lap("packing_catalogue")
+	if err := wait(jBHist, ""); err != nil {
+		return err
+	}
+	bw := 0
+	c16Tagged(jBHist.res.Output, "HISTWITNESS", func(string) error { bw++; return nil })
+	if bw != 2 {
+		return core.Inconcl("self-test: TLC found a distinguishing history for %d of the 2 builder designs that keep a flattening", bw)
+	}
+	if err := c16BuilderHistories(jBHist.res.Output, jBHist.res.Distinct, cov, add); err != nil {
+		return err
+	}
+	jBHist.res.Output = ""
+	lap("builder_histories")
 
 	// ---- report
 	sort.SliceStable(findings, func(i, j int) bool { return findings[i].f.Key < findings[j].f.Key })
